@@ -24,7 +24,7 @@ func replayKeys(r *mon.Run) {
 		if !r.Want("replay", i) {
 			return
 		}
-		ord := i % 3         // the attack aims at /io request number ord+1 of the fresh broker
+		ord := i % 3          // the attack aims at /io request number ord+1 of the fresh broker
 		uniDir := (i / 3) % 2 // 0: unidirectional input stream, 1: output stream
 		uniFirst := (i/6)%2 == 0
 		// 1. what another copy of the program hands out
